@@ -321,11 +321,18 @@ fn parse_compressed<'a>(input: &'a [u8], cache: &AtomCache) -> NomResult<'a, Own
         return Err(nom::Err::Failure(NomError::new(input, ErrorKind::TooLarge)));
     }
 
+    // Never trust the declared size for allocation, and never inflate past it: read at most
+    // one byte more than declared so that an oversized stream is detected without buffering it.
     let mut decoder = ZlibDecoder::new(rest);
-    let mut decompressed = Vec::with_capacity(uncompressed_size as usize);
+    let mut decompressed = Vec::new();
     decoder
+        .by_ref()
+        .take(uncompressed_size as u64 + 1)
         .read_to_end(&mut decompressed)
         .map_err(|_| nom::Err::Failure(NomError::new(input, ErrorKind::Fail)))?;
+    if decompressed.len() != uncompressed_size as usize {
+        return Err(nom::Err::Failure(NomError::new(input, ErrorKind::Verify)));
+    }
     let consumed = decoder.total_in() as usize;
 
     let owned_term = match parse_term(&decompressed, cache) {
